@@ -114,11 +114,14 @@ unsafe impl GlobalAlloc for Acct {
             return std::ptr::null_mut();
         }
         let mode = fence_applies(&layout);
-        let p = if mode != 0 {
+        let mut p = if mode != 0 {
             fence_alloc(layout, mode)
         } else {
             System.alloc(layout)
         };
+        if p.is_null() && mode != 0 {
+            p = System.alloc(layout);
+        }
         if !p.is_null() {
             note_alloc(layout.size());
             if JUNK.load(Ordering::Relaxed) {
@@ -135,12 +138,15 @@ unsafe impl GlobalAlloc for Acct {
             return std::ptr::null_mut();
         }
         let mode = fence_applies(&layout);
-        let p = if mode != 0 {
+        let mut p = if mode != 0 {
             // fresh anonymous mappings are zero
             fence_alloc(layout, mode)
         } else {
             System.alloc_zeroed(layout)
         };
+        if p.is_null() && mode != 0 {
+            p = System.alloc_zeroed(layout);
+        }
         if !p.is_null() {
             note_alloc(layout.size());
         }
